@@ -24,6 +24,7 @@ structure Totals where
   events : Nat := 0
   hits : List (String × Nat) := []
   pipeOk : Nat := 0
+  pipeMismatch : Nat := 0
   pipeHits : List (String × Nat) := []
   firstMismatch : Option String := none
 
@@ -44,8 +45,8 @@ partial def loopPipe (h : IO.FS.Stream) (hdr : String) (r : Pipe.PReplay) (n : N
       | none => if okEnd then Pipe.quietCheck r else none
     match err with
     | some e =>
-      IO.println s!"MISMATCH {hdr} :: {e}"
-      return { tot with mismatch := tot.mismatch + 1, events := tot.events + n, firstMismatch := tot.firstMismatch <|> some s!"{hdr} :: {e}" }
+      IO.println s!"MISMATCH-PIPE {hdr} :: {e}"
+      return { tot with pipeMismatch := tot.pipeMismatch + 1, events := tot.events + n, firstMismatch := tot.firstMismatch <|> some s!"{hdr} :: {e}" }
     | none =>
       if verbose then IO.println s!"OK {hdr} pipe-events={n}"
       return { tot with pipeOk := tot.pipeOk + 1, events := tot.events + n, pipeHits := addHits tot.pipeHits r.hits }
@@ -129,13 +130,13 @@ def main (args : List String) : IO UInt32 := do
     let covered := allPcNames.filter (fun n => tot.hits.any (·.1 == n))
     let missing := allPcNames.filter (fun n => !tot.hits.any (·.1 == n))
     let pcov := Pipe.allLabelNames.filter (fun n => tot.pipeHits.any (fun p => p.1 == n || p.1.startsWith (n ++ "-")))
-    IO.println s!"SUMMARY ok={tot.ok} mismatch={tot.mismatch} skipped={tot.skipped} events={tot.events} covered={covered.length}/{allPcNames.length} pipe_ok={tot.pipeOk} pipe_labels={pcov.length}/{Pipe.allLabelNames.length}"
+    IO.println s!"SUMMARY ok={tot.ok} mismatch={tot.mismatch} skipped={tot.skipped} events={tot.events} covered={covered.length}/{allPcNames.length} pipe_ok={tot.pipeOk} pipe_mismatch={tot.pipeMismatch} pipe_labels={pcov.length}/{Pipe.allLabelNames.length}"
     let phs := tot.pipeHits.map (fun p => s!"{p.1}:{p.2}")
     IO.println s!"PIPEHITS {phs}"
     IO.println s!"MISSING {missing}"
     let hs := tot.hits.map (fun p => s!"{p.1}:{p.2}")
     IO.println s!"HITS {hs}"
-    return (if tot.mismatch == 0 then 0 else 1)
+    return (if tot.mismatch == 0 && tot.pipeMismatch == 0 then 0 else 1)
   | _ =>
     IO.eprintln "usage: driver conform <trace-file> [-v]"
     return 2
